@@ -373,6 +373,7 @@ class _G:
             "dc": gen_cache(rp, True),
             "ic_on": rp.random() < 0.4,
             "ic": gen_cache(rp, False),
+            "decoy": rp.random() < 0.3,
         }
 
 
